@@ -156,6 +156,9 @@ func Src(seed int64, n int, pf string) (*cq.Set, *cq.Interner) {
 		cfg := admCfg(r, false)
 		inner := innerEvaluator(marker)
 		nsLister, podsInformer := r.Intn(3) != 0, r.Intn(3) == 0
+		if h == 0 && pf == "pf_src12" {
+			podsInformer = false // the first history lists a namespace above the 3000-pod cap through the live lister
+		}
 		rig, err := newSrcRig(&cfg, inner, nsLister, podsInformer)
 		if err != nil {
 			set.GoFails = append(set.GoFails, cq.GoFail{What: "cannot build Admission: " + err.Error(), Replay: map[string]interface{}{"cfg": cfg}})
@@ -172,7 +175,8 @@ func Src(seed int64, n int, pf string) (*cq.Set, *cq.Interner) {
 			default:
 				s = namespaceScenario(r, marker)
 			}
-			big := !podsInformer && marker && (i == 7 || i == 14)
+			huge := pf == "pf_src12" && h == 0 && i == 3
+			big := !podsInformer && marker && (i == 7 || i == 14 || huge)
 			if big {
 				// a tightening namespace update in a non-exempt namespace: the dry run lists more than 500 pods
 				s = namespaceScenario(r, marker)
@@ -217,7 +221,24 @@ func Src(seed int64, n int, pf string) (*cq.Set, *cq.Interner) {
 				pods = tinyPods(r, 501+r.Intn(200), s.LVs)
 				st.ListFails, st.LaterPageFails = false, i == 14 || r.Intn(2) == 0
 			}
-			switch r.Intn(3) {
+			if huge {
+				// 3000 compliant replicas of one ReplicaSet, then violating bare pods: beyond the cap, so the
+				// answer must say how many of how many were checked, and the bare pods must all be reported
+				pods = nil
+				tr := true
+				for k := 0; k < 3000; k++ {
+					pods = append(pods, &corev1.Pod{ObjectMeta: metav1.ObjectMeta{Name: fmt.Sprintf("a-replica-%04d", k), OwnerReferences: []metav1.OwnerReference{{UID: "rs", Controller: &tr}}}})
+				}
+				for k := 0; k < 40+r.Intn(60); k++ {
+					pods = append(pods, &corev1.Pod{ObjectMeta: metav1.ObjectMeta{Name: fmt.Sprintf("z-bare-%03d", k), Annotations: map[string]string{"m/baseline:latest": "reason-z"}}})
+				}
+				st.LaterPageFails = false
+			}
+			placement := r.Intn(3)
+			if len(pods) > 100 {
+				placement = 2
+			}
+			switch placement {
 			case 0:
 				st.CachedPods, st.LivePods = pods, pods
 			case 1:
@@ -249,7 +270,12 @@ func Src(seed int64, n int, pf string) (*cq.Set, *cq.Interner) {
 			}
 			var evals []string
 			seen := map[string]bool{}
-			cand := append(append(append([]*corev1.Pod{}, scenarioPods(&s)...), st.CachedPods...), st.LivePods...)
+			cand := append([]*corev1.Pod{}, scenarioPods(&s)...)
+			if len(st.CachedPods)+len(st.LivePods) <= 100 {
+				// (for the long lists of marker pods the model's mirror of the marker evaluator answers; a
+				// table of thousands of rows would make every lookup linear in the list)
+				cand = append(append(cand, st.CachedPods...), st.LivePods...)
+			}
 			for _, p := range cand {
 				for _, lv := range s.LVs {
 					k := p.Name + "|" + lv.String()
